@@ -17,6 +17,8 @@ type flowOpts struct {
 	Class     bool     // the error must keep its class where it is returned
 	Through   []string // function keys: passing the error to one of these and returning the result is propagation
 	Sinks     []string // function keys: passing the error (class kept) to one of these is delivery
+	Require   bool     // the error must pass one of Through before it is returned
+	sanitised bool     // (internal) the value already passed one of Through
 	depth     int
 }
 
@@ -33,10 +35,27 @@ func (f *Flat) consumes(fi *FuncInfo, n *GNode, E types.Object, o flowOpts) (boo
 		return false, ""
 	}
 	sig := fi.Obj.Type().(*types.Signature)
+	viaAdapter := func(e ast.Expr) bool {
+		found := false
+		ast.Inspect(e, func(x ast.Node) bool {
+			if c, ok := x.(*ast.CallExpr); ok && len(o.Through) > 0 && f.P.callIs(f.Pkg, c, o.Through...) {
+				for _, a := range c.Args {
+					if usesObj(info, a, E) {
+						found = true
+					}
+				}
+			}
+			return !found
+		})
+		return found
+	}
 	checkExpr := func(e ast.Expr) (bool, string) {
 		k, m, why := keepsClass(info, e, E)
 		if !m {
 			return false, ""
+		}
+		if o.Require && !o.sanitised && !viaAdapter(e) {
+			return false, "the error reaches the caller without passing " + strings.Join(o.Through, "/")
 		}
 		if k {
 			return true, why
@@ -118,6 +137,9 @@ func (f *Flat) consumes(fi *FuncInfo, n *GNode, E types.Object, o flowOpts) (boo
 					return false, why
 				}
 				if Y == E {
+					if viaAdapter(rhs) {
+						return true, "re-wrapped in place (sanitised): " + why
+					}
 					return true, "re-wrapped in place: " + why // obligation continues with the same variable (handled by caller)
 				}
 				if o.depth > 4 {
@@ -125,6 +147,9 @@ func (f *Flat) consumes(fi *FuncInfo, n *GNode, E types.Object, o flowOpts) (boo
 				}
 				o2 := o
 				o2.depth++
+				if viaAdapter(rhs) {
+					o2.sanitised = true
+				}
 				res := f.errorConsumed(fi, n.ID, Y, o2)
 				if res.OK {
 					return true, "transferred to " + Y.Name() + ": " + why
@@ -189,6 +214,9 @@ func (f *Flat) errorConsumed(fi *FuncInfo, A int, E types.Object, o flowOpts) fl
 					// obligation continues from this node with the same variable
 					o2 := o
 					o2.depth++
+					if strings.Contains(why, "(sanitised)") {
+						o2.sanitised = true
+					}
 					if o2.depth > 4 {
 						return flowResult{false, "re-wrap chain too deep", f.P.pos(n.Ast)}
 					}
